@@ -16,6 +16,7 @@ import (
 	"net/url"
 	"reflect"
 	"strings"
+	"sync"
 	"time"
 
 	"github.com/hashicorp/eventlogger"
@@ -415,6 +416,56 @@ func ceMain(args []string) {
 				st.Samples = append(st.Samples, op+" => "+res[:min(len(res), 120)])
 			}
 		}
+	}
+	// generated ids are fresh and unique, also when several pipelines (or several Sends) format at once
+	{
+		src, _ := url.Parse("https://verif.example/ids")
+		ff := &cloudevents.FormatterFilter{Source: src}
+		var mu sync.Mutex
+		ids := map[string]int{}
+		var wg sync.WaitGroup
+		nG, per := 8, 2500
+		if *n > 50000 {
+			per = 40000
+		}
+		for g := 0; g < nG; g++ {
+			wg.Add(1)
+			go func() {
+				defer wg.Done()
+				local := make([]string, 0, per)
+				for k := 0; k < per; k++ {
+					e := &eventlogger.Event{Type: "t", CreatedAt: time.Unix(1700000000, 0), Formatted: map[string][]byte{}, Payload: "p"}
+					if _, err := ff.Process(ctx, e); err != nil {
+						continue
+					}
+					b, _ := e.Format(string(cloudevents.FormatJSON))
+					var doc struct {
+						ID string `json:"id"`
+					}
+					json.Unmarshal(b, &doc)
+					local = append(local, doc.ID)
+				}
+				mu.Lock()
+				for _, id := range local {
+					ids[id]++
+				}
+				mu.Unlock()
+			}()
+		}
+		wg.Wait()
+		dups, empty := 0, 0
+		for id, c := range ids {
+			if id == "" {
+				empty += c
+			} else if c > 1 {
+				dups += c - 1
+			}
+		}
+		if dups > 0 || empty > 0 {
+			oracle("C18 of %d ids generated by %d goroutines formatting at once %d are repeats of another event's id and %d are empty: generated ids are fresh and unique", nG*per, nG, dups, empty)
+		}
+		st.hit("concurrent-ids")
+		st.Ops += nG * per
 	}
 	o.close()
 	st.write(*out)
